@@ -67,7 +67,7 @@ using namespace rpcx;
 struct Loop;
 struct ReqWriter {   // caller -> request bytes
   Loop* loop;
-  St Prepare(size_t) { return {}; }
+  St Prepare(size_t);
   St Write(uint8_t b);
   template <typename T> St Write(const T* b, const T* e);
   St Skip(size_t n, uint8_t pad = 0);
@@ -88,7 +88,7 @@ struct ReqReader {   // dispatcher <- request bytes
 };
 struct RepWriter {   // dispatcher -> reply bytes
   Loop* loop;
-  St Prepare(size_t) { return {}; }
+  St Prepare(size_t);
   St Write(uint8_t b);
   template <typename T> St Write(const T* b, const T* e);
   St Skip(size_t n, uint8_t pad = 0);
@@ -101,6 +101,21 @@ struct HandlerLog {
 };
 
 struct Loop {
+  // fault injection on one of the four pipe ends: its k-th primitive call fails with code e
+  std::string fault_on;
+  long fault_k = 0;
+  int fault_e = 0;
+  long ncalls[4] = {0, 0, 0, 0};   // reqw, repr, reqr, repw
+  bool ftrig = false, caf = false;
+  // returns true (and sets *st) when the call must fail
+  bool Fault(int end, St* st) {
+    static const char* names[4] = {"reqw", "repr", "reqr", "repw"};
+    ncalls[end]++;
+    if (fault_on != names[end]) return false;
+    if (ftrig) { caf = true; *st = FromCode(fault_e); return true; }
+    if (ncalls[end] == fault_k) { ftrig = true; *st = FromCode(fault_e); return true; }
+    return false;
+  }
   std::vector<uint8_t> req, rep;
   size_t req_pos = 0, rep_pos = 0;
   bool dispatched = false;
@@ -131,15 +146,19 @@ struct Loop {
   }
 };
 
-St ReqWriter::Write(uint8_t b) { loop->req.push_back(b); return {}; }
+St ReqWriter::Prepare(size_t) { St st; if (loop->Fault(0, &st)) return st; return {}; }
+St RepWriter::Prepare(size_t) { St st; if (loop->Fault(3, &st)) return st; return {}; }
+St ReqWriter::Write(uint8_t b) { St st; if (loop->Fault(0, &st)) return st; loop->req.push_back(b); return {}; }
 template <typename T> St ReqWriter::Write(const T* b, const T* e) {
+  { St st; if (loop->Fault(0, &st)) return st; }
   const uint8_t* p = reinterpret_cast<const uint8_t*>(b);
   loop->req.insert(loop->req.end(), p, p + (e - b) * sizeof(T));
   return {};
 }
 St ReqWriter::Skip(size_t n, uint8_t pad) { loop->req.insert(loop->req.end(), n, pad); return {}; }
-St RepWriter::Write(uint8_t b) { loop->rep.push_back(b); return {}; }
+St RepWriter::Write(uint8_t b) { St st; if (loop->Fault(3, &st)) return st; loop->rep.push_back(b); return {}; }
 template <typename T> St RepWriter::Write(const T* b, const T* e) {
+  { St st; if (loop->Fault(3, &st)) return st; }
   const uint8_t* p = reinterpret_cast<const uint8_t*>(b);
   loop->rep.insert(loop->rep.end(), p, p + (e - b) * sizeof(T));
   return {};
@@ -147,6 +166,7 @@ template <typename T> St RepWriter::Write(const T* b, const T* e) {
 St RepWriter::Skip(size_t n, uint8_t pad) { loop->rep.insert(loop->rep.end(), n, pad); return {}; }
 
 St RepReader::Ensure(size_t n) {
+  { St st; if (loop->Fault(1, &st)) return st; }
   if (loop->rep.size() - loop->rep_pos < n) loop->RunDispatcher();
   if (loop->rep.size() - loop->rep_pos < n) return nop::ErrorStatus::ReadLimitReached;
   return {};
@@ -154,6 +174,7 @@ St RepReader::Ensure(size_t n) {
 template <typename T> St RepReader::Read(T* b, T* e) {
   const size_t n = static_cast<size_t>(e - b) * sizeof(T);
   if (loop->rep.size() - loop->rep_pos < n) loop->RunDispatcher();
+  { St st; if (loop->Fault(1, &st)) return st; }
   if (loop->rep.size() - loop->rep_pos < n) return nop::ErrorStatus::ReadLimitReached;
   memcpy(b, loop->rep.data() + loop->rep_pos, n);
   loop->rep_pos += n;
@@ -166,11 +187,13 @@ St RepReader::Skip(size_t n) {
   return {};
 }
 St ReqReader::Ensure(size_t n) {
+  { St st; if (loop->Fault(2, &st)) return st; }
   if (loop->req.size() - loop->req_pos < n) return nop::ErrorStatus::ReadLimitReached;
   return {};
 }
 template <typename T> St ReqReader::Read(T* b, T* e) {
   const size_t n = static_cast<size_t>(e - b) * sizeof(T);
+  { St st; if (loop->Fault(2, &st)) return st; }
   if (loop->req.size() - loop->req_pos < n) return nop::ErrorStatus::ReadLimitReached;
   memcpy(b, loop->req.data() + loop->req_pos, n);
   loop->req_pos += n;
@@ -281,6 +304,11 @@ void RunCalls(const std::string& iface, const Json& calls, JsonOut& o) {
     L->dstatus = -1;
     L->hlog.clear();
     L->mut = call.has("mut") ? &call.at("mut") : nullptr;
+    L->fault_on = call.has("fault") ? call.at("fault").at("on").s : "";
+    L->fault_k = call.has("fault") ? static_cast<long>(call.at("fault").at("k").num()) : 0;
+    L->fault_e = call.has("fault") ? static_cast<int>(call.at("fault").at("e").num(16)) : 0;
+    L->ftrig = L->caf = false;
+    for (auto& n : L->ncalls) n = 0;
     const size_t req0 = L->req.size();
     const size_t rep0 = L->rep.size();
     if (iface == "calc") L->dispatch = [&]() { return calc(&receiver); };
@@ -309,6 +337,11 @@ void RunCalls(const std::string& iface, const Json& calls, JsonOut& o) {
     }
     // a call without a reply (void return, raw request) has not triggered the peer yet
     if (!L->dispatched && L->req.size() > L->req_pos) L->RunDispatcher();
+    if (call.has("fault")) {
+      o.key("fault"); WriteJson(call.at("fault"), o);
+      o.kv_bool("ftrig", L->ftrig);
+      o.kv_bool("caf", L->caf);
+    }
     o.kv_num("dstatus", L->dstatus);
     o.key("req"); o.bytes(L->req_sent.data(), L->req_sent.size());
     o.key("seen"); o.bytes(L->req_seen.data(), L->req_seen.size());
